@@ -10,6 +10,8 @@ import HtpModel.Lemmas.OwedOut
 import HtpModel.Pinned.Eq
 import HtpModel.Lemmas.History
 import HtpModel.Lemmas.HistorySticky
+import HtpModel.Lemmas.CFunsCounters
+import HtpModel.Lemmas.HistoryCounters
 
 namespace Htp.C09
 open Htp.Conn Htp.Gen
@@ -314,6 +316,30 @@ theorem C09_history_error_then_error (cfg : Cfg) (c0 : Conn) (pre mid : List Cal
        (resData cfg (some d') d'.length c1).1.cbCount = c1.cbCount) :=
   ⟨fun h1 h2 => history_error_then_error_req_chunk cfg c0 pre mid d d' h1 h2,
    fun h1 h2 => history_error_then_error_res_chunk cfg c0 pre mid d d' h1 h2⟩
+
+/-- **C09 (byte counters, the code itself)**: htp_conn_track_inbound_data / htp_conn_track_outbound_data as translated from the current source add
+    exactly the length offered to the connection's counter (the int64 store does not wrap while the total stays below 2^63) -/
+theorem C09_translated_byte_counters (fuel : Nat) (len ctr : Int) (h0 : 0 ≤ ctr) (hl : 0 ≤ len) (hb : ctr + len < 9223372036854775808) :
+    (Htp.Gen.C.htp_conn_track_inbound_data fuel (len := len) (conn_in_data_counter := ctr)).map (·.2.conn_in_data_counter) = some (ctr + len) ∧
+    (Htp.Gen.C.htp_conn_track_outbound_data fuel (len := len) (conn_out_data_counter := ctr)).map (·.2.conn_out_data_counter) = some (ctr + len) := by
+  rw [Htp.CFuns.htp_conn_track_inbound_data_eq fuel len ctr h0 hl hb, Htp.CFuns.htp_conn_track_outbound_data_eq fuel len ctr h0 hl hb]
+  exact ⟨rfl, rfl⟩
+
+/-- **C09 (the per-connection byte counters equal the bytes offered, over whole histories)**: for every history of calls - request and response
+    chunks in any interleaving, close, req_close, open, tx_freed, any configuration and callback policy - in which every data call of a
+    direction is accepted (returns DATA, DATA_OTHER or TUNNEL), that direction's counter has grown by exactly the sum of the lengths offered:
+    nothing but the "store the chunk" step of the two data functions writes the counters (`Lemmas/HistoryCounters.lean`: the frame family
+    `KeepCtr` over every function of both directions and the driver loops), and an accepted call always passed through that step. Without
+    the hypothesis the statement is false and must be: a call on a direction already in STOP / ERROR returns before it counts
+    (`inDataCounter_lt_offered_after_error`: 21 bytes offered, 18 counted); in every history the counter is at most what was offered. -/
+theorem C09_history_byte_counters (cfg : Cfg) (c0 : Conn) (calls : List Call) :
+    (AllReqAccepted cfg c0 calls → (runCalls cfg c0 calls).inDataCounter = c0.inDataCounter + offeredReq calls) ∧
+    (AllResAccepted cfg c0 calls → (runCalls cfg c0 calls).outDataCounter = c0.outDataCounter + offeredRes calls) :=
+  ⟨history_inDataCounter_accepted cfg c0 calls, history_outDataCounter_accepted cfg c0 calls⟩
+
+example :
+    let calls : List Call := [.open, .req (b!"GET /"), .req (b!" HTTP/1"), .res (b!"HTTP/1.1 2")]
+    (runCalls {} {} calls).inDataCounter = 12 ∧ (runCalls {} {} calls).outDataCounter = 10 := by decide
 
 /-- **C09 (the constants are the reviewed ones)**: every constant the translator reads from the current source - among them the stream state codes -
     equals its reviewed snapshot (lean/HtpModel/Pinned); the model follows a regenerated constant, so this is what notices a changed one -/
